@@ -76,6 +76,24 @@ fn include_chain(n: usize) -> Case {
     }
 }
 
+/// `include whose file name comes out of a macro chain of depth k (the name macro counts against the macro limit)
+fn include_named_by_chain(k: usize) -> Case {
+    let mut s = String::from("`define P1 \"f0.svh\"\n");
+    for i in 2..=k {
+        s.push_str(&format!("`define P{} `P{}\n", i, i - 1));
+    }
+    s.push_str(&format!("`include `P{}\nafter\n", k));
+    Case {
+        family: "include-named-by-macro-chain",
+        files: vec![("top.sv".into(), s), ("f0.svh".into(), "payload_tok\n".into())],
+        top: "top.sv".into(),
+        expect_ok: if k <= 64 { Some("payload_tok".into()) } else { None },
+        wrappers: Some(0),
+        payload_count: 1,
+        param: format!("depth={}", k),
+    }
+}
+
 fn macro_cycle(len: usize) -> Case {
     let mut s = String::new();
     for i in 0..len {
@@ -153,7 +171,8 @@ pub fn run_case(_env: &Env, ctx: &mut Ctx, idx: u64) {
     } else if idx < 2 * SWEEP + 51 {
         macro_include_cycle((idx - 2 * SWEEP - 45) as usize)
     } else {
-        match rng.below(6) {
+        match rng.below(7) {
+            6 => include_named_by_chain(rng.range(55, 75)),
             0 => macro_chain(rng.range(1, 130)),
             1 => include_chain(rng.range(1, 130)),
             2 => macro_cycle(rng.range(1, 12)),
